@@ -1692,3 +1692,487 @@ func condClass(r *lexRoles, fd *ast.FuncDecl, cond ast.Expr) (runeSet, bool) {
 	}
 	return s.norm(), true
 }
+
+// ---------------------------------------------------------------------
+// R-lex-number-value / R-loc-advance / R-lex-escape-decode
+
+func init() {
+	register(&Rule{ID: "R-lex-number-value", Floor: 1, Run: ruleLexNumberValue,
+		Doc: "the value of a number token never contains a digit separator: on every path of the number constructor, every rune appended to the value that may be '_' is removed again (strings.ReplaceAll(value, \"_\", \"\")) before the token is built — the parser hands the value to strconv, which rejects '_'"})
+	register(&Rule{ID: "R-loc-advance", Floor: 2, Run: ruleLocAdvance,
+		Doc: "positions are counted the way the span convention states: Location.Advance adds 1 to Index always, and either (newline) sets Column to 1 and adds 1 to Line or adds 1 to Column; the lexer's advance passes newline = true exactly when the rune it leaves is LF (not CR, not any other rune) — otherwise every later line/column in the file is wrong"})
+	register(&Rule{ID: "R-lex-escape-decode", Floor: 1, Run: ruleLexEscapeDecode,
+		Doc: "the numeric escape decoder turns exactly the digits it consumed into the code point: either strconv.ParseInt/ParseUint over the accumulated digit string with the radix parameter, or a digit-value function that is correct on every range of the digit class the loop accepts (0-9 ↦ d-'0', A-F ↦ d-'A'+10, a-f ↦ d-'a'+10)"})
+}
+
+func ruleLexNumberValue(c *Ctx) []Obligation {
+	r := discoverLexRoles(c)
+	info := r.info
+	_, _, _, def := nextTokenCases(c, r)
+	var obs []Obligation
+	if def == nil {
+		return []Obligation{{Key: "lexer number constructor", Status: Undecided, Detail: "NextToken has no default clause"}}
+	}
+	for _, s := range def.Body {
+		ifs, ok := s.(*ast.IfStmt)
+		if !ok {
+			continue
+		}
+		call, ok := ast.Unparen(ifs.Cond).(*ast.CallExpr)
+		if !ok || len(ifs.Body.List) == 0 {
+			continue
+		}
+		pfn := CalleeOf(info, call)
+		rs, ok := r.preds[pfn]
+		if !ok || !rs.equal(runeSet{[][2]rune{{'0', '9'}}}) {
+			continue
+		}
+		ret, ok := ifs.Body.List[len(ifs.Body.List)-1].(*ast.ReturnStmt)
+		if !ok || len(ret.Results) == 0 {
+			continue
+		}
+		rc, ok := ast.Unparen(ret.Results[0]).(*ast.CallExpr)
+		if !ok {
+			continue
+		}
+		fn := CalleeOf(info, rc)
+		fd := FuncDecl(r.pkg, "Lexer", fn.Name())
+		if fd == nil {
+			continue
+		}
+		init := &lexState{env: map[types.Object]lv{}}
+		set := rs
+		init.add(charFact{off: 0, kind: fNonNil})
+		init.add(charFact{off: 0, kind: fIn, set: &set, name: pfn.Name()})
+		res, overflow, unsup := walkLexFuncN(r, fd, init, nil, 2)
+		o := Obligation{Key: "lexer." + fn.Name() + "|value free of digit separators", Pos: c.Pos(fd.Pos()), Nontrivial: true}
+		if overflow || len(unsup) > 0 {
+			o.Status, o.Detail = Undecided, "path overflow / unsupported control flow"
+			obs = append(obs, o)
+			continue
+		}
+		fails := map[string]bool{}
+		n := 0
+		for _, pr := range res {
+			if len(pr.ret) == 0 || pr.ret[0].k != lvToken {
+				continue
+			}
+			n++
+			val := pr.ret[0].parts[1]
+			if val.desc == "stripped(_)" {
+				continue
+			}
+			for _, ev := range pr.st.events {
+				if ev.kind == "append" && (ev.v.k == lvStrOfChar || ev.v.k == lvChar) && !pr.st.excludes(ev.v.off, '_') {
+					fails[fmt.Sprintf("on the path [%s] the rune at offset %d, which may be '_', is appended to the value and the value reaches the token unstripped", consumedSummary(pr.st), ev.v.off)] = true
+				}
+			}
+		}
+		if len(fails) > 0 {
+			o.Status, o.Detail = Violated, strings.Join(sortedKeys(fails), "; ")
+		} else {
+			o.Status, o.Detail = Discharged, fmt.Sprintf("%d token paths: separators are never appended or are stripped before the token is built", n)
+		}
+		obs = append(obs, o)
+	}
+	return obs
+}
+
+func ruleLocAdvance(c *Ctx) []Obligation {
+	var obs []Obligation
+	// (i) errors.Location.Advance
+	ep := c.Pkg("homescript/errors")
+	fd := FuncDecl(ep, "Location", "Advance")
+	o := Obligation{Key: "errors.Location.Advance|counts index, line and column", Nontrivial: true}
+	if fd == nil || fd.Type.Params.NumFields() != 1 {
+		o.Status, o.Detail = Undecided, "errors.Location.Advance(newline bool) not found"
+		obs = append(obs, o)
+	} else {
+		o.Pos = c.Pos(fd.Pos())
+		info := ep.TypesInfo
+		param := info.Defs[fd.Type.Params.List[0].Names[0]]
+		type st struct {
+			d        map[string]int // field → +n
+			set      map[string]int // field → set to constant
+			nl, seen bool
+		}
+		var fails []string
+		w := &Walker[*st]{
+			Clone: func(s *st) *st {
+				n := &st{d: map[string]int{}, set: map[string]int{}, nl: s.nl, seen: s.seen}
+				for k, v := range s.d {
+					n.d[k] = v
+				}
+				for k, v := range s.set {
+					n.set[k] = v
+				}
+				return n
+			},
+			OnCond: func(s *st, cond ast.Expr, taken bool) (*st, bool) {
+				if id, ok := ast.Unparen(cond).(*ast.Ident); ok && info.Uses[id] == param {
+					if s.seen && s.nl != taken {
+						return s, false
+					}
+					s.seen, s.nl = true, taken
+				}
+				return s, true
+			},
+			OnStmt: func(s *st, stmt ast.Stmt) (*st, bool) {
+				field := func(e ast.Expr) string {
+					if sel, ok := ast.Unparen(e).(*ast.SelectorExpr); ok {
+						return sel.Sel.Name
+					}
+					return ""
+				}
+				switch x := stmt.(type) {
+				case *ast.IncDecStmt:
+					if f := field(x.X); f != "" {
+						if x.Tok == token.INC {
+							s.d[f]++
+						} else {
+							s.d[f]--
+						}
+					}
+				case *ast.AssignStmt:
+					if len(x.Lhs) == 1 && len(x.Rhs) == 1 {
+						f := field(x.Lhs[0])
+						tv := info.Types[x.Rhs[0]]
+						if f != "" && tv.Value != nil {
+							n, _ := constant.Int64Val(constant.ToInt(tv.Value))
+							switch x.Tok {
+							case token.ADD_ASSIGN:
+								s.d[f] += int(n)
+							case token.SUB_ASSIGN:
+								s.d[f] -= int(n)
+							case token.ASSIGN:
+								s.set[f] = int(n)
+								delete(s.d, f)
+							}
+						} else if f != "" {
+							s.set[f] = -999
+						}
+					}
+				}
+				return s, true
+			},
+		}
+		paths := 0
+		w.Exit = func(s *st, oc outcome) {
+			paths++
+			if !s.seen {
+				fails = append(fails, "a path does not consult the newline parameter")
+				return
+			}
+			if s.d["Index"] != 1 {
+				fails = append(fails, fmt.Sprintf("newline=%v: Index changes by %+d, want +1", s.nl, s.d["Index"]))
+			}
+			if s.nl {
+				if v, ok := s.set["Column"]; !ok || v != 1 || s.d["Column"] != 0 {
+					fails = append(fails, "newline=true: Column is not reset to 1")
+				}
+				if s.d["Line"] != 1 {
+					fails = append(fails, fmt.Sprintf("newline=true: Line changes by %+d, want +1", s.d["Line"]))
+				}
+			} else {
+				if s.d["Column"] != 1 {
+					fails = append(fails, fmt.Sprintf("newline=false: Column changes by %+d, want +1", s.d["Column"]))
+				}
+				if s.d["Line"] != 0 {
+					fails = append(fails, "newline=false: Line changes")
+				}
+				if _, ok := s.set["Column"]; ok {
+					fails = append(fails, "newline=false: Column is overwritten")
+				}
+			}
+		}
+		w.Run(fd.Body, &st{d: map[string]int{}, set: map[string]int{}})
+		if len(fails) > 0 {
+			o.Status, o.Detail = Violated, strings.Join(uniqStrings(fails), "; ")
+		} else {
+			o.Status, o.Detail = Discharged, fmt.Sprintf("%d paths: Index+1; newline → Line+1, Column=1; otherwise Column+1", paths)
+		}
+		obs = append(obs, o)
+	}
+	// (ii) the lexer's advance: newline argument ⇔ current rune == LF
+	r := discoverLexRoles(c)
+	var advFd *ast.FuncDecl
+	for _, f := range AllFuncDecls(r.pkg) {
+		if fn, _ := r.info.Defs[f.Name].(*types.Func); fn == r.advance {
+			advFd = f
+		}
+	}
+	o2 := Obligation{Key: "lexer.Lexer.advance|newline iff the rune left behind is LF", Nontrivial: true}
+	if advFd == nil {
+		o2.Status, o2.Detail = Undecided, "advance method not found"
+		return append(obs, o2)
+	}
+	o2.Pos = c.Pos(advFd.Pos())
+	var arg ast.Expr
+	ast.Inspect(advFd.Body, func(n ast.Node) bool {
+		if call, ok := n.(*ast.CallExpr); ok && len(call.Args) == 1 {
+			if fn := CalleeOf(r.info, call); fn != nil && fn.Name() == "Advance" && fn.Pkg() != nil && strings.HasSuffix(fn.Pkg().Path(), "/errors") {
+				arg = call.Args[0]
+			}
+		}
+		return true
+	})
+	if arg == nil {
+		o2.Status, o2.Detail = Undecided, "call of Location.Advance not found"
+		return append(obs, o2)
+	}
+	ev := &lexEval{r: r}
+	if advFd.Recv != nil && len(advFd.Recv.List[0].Names) > 0 {
+		ev.recv, _ = r.info.Defs[advFd.Recv.List[0].Names[0]].(*types.Var)
+	}
+	var fails []string
+	undecided := false
+	w := &Walker[*lexState]{
+		Clone: cloneLex,
+		OnCond: func(st *lexState, cond ast.Expr, taken bool) (*lexState, bool) {
+			f, ok := ev.condFact(st, cond, taken)
+			if !ok {
+				undecided = true
+				return st, true
+			}
+			return st, st.add(f)
+		},
+	}
+	check := func(st *lexState, truth bool) {
+		isNil, _, eq, hasEq := st.known(0)
+		if truth {
+			if !(hasEq && eq == '\n') {
+				fails = append(fails, fmt.Sprintf("newline is true on a path where the rune is not known to be LF [%s]", st.factString()))
+			}
+		} else if !isNil && !st.excludes(0, '\n') {
+			fails = append(fails, fmt.Sprintf("newline is false on a path where the rune may be LF [%s]", st.factString()))
+		}
+	}
+	w.cond(arg, &lexState{env: map[types.Object]lv{}}, true, func(s *lexState) { check(s, true) })
+	w.cond(arg, &lexState{env: map[types.Object]lv{}}, false, func(s *lexState) { check(s, false) })
+	switch {
+	case undecided:
+		o2.Status, o2.Detail = Undecided, "the newline argument `"+exprStr(arg)+"` contains a condition that is not a test of the current rune"
+	case len(fails) > 0:
+		o2.Status, o2.Detail = Violated, strings.Join(uniqStrings(fails), "; ")
+	default:
+		o2.Status, o2.Detail = Discharged, "`"+exprStr(arg)+"` is true exactly for LF"
+	}
+	return append(obs, o2)
+}
+
+func ruleLexEscapeDecode(c *Ctx) []Obligation {
+	r := discoverLexRoles(c)
+	info := r.info
+	hp := FuncDecl(r.pkg, "Lexer", "escapePart")
+	o := Obligation{Key: "lexer.escapePart|code point decoded from the consumed digits", Nontrivial: true}
+	if hp == nil {
+		o.Status, o.Detail = Undecided, "numeric escape helper not found"
+		return []Obligation{o}
+	}
+	o.Pos = c.Pos(hp.Pos())
+	// shape 1: strconv.ParseInt/ParseUint(<accumulated string>, radix param, _)
+	var radixParam types.Object
+	for _, f := range hp.Type.Params.List {
+		for _, n := range f.Names {
+			if strings.Contains(strings.ToLower(n.Name), "radix") || strings.Contains(strings.ToLower(n.Name), "base") {
+				radixParam = info.Defs[n]
+			}
+		}
+	}
+	parse := false
+	wrongBase := ""
+	ast.Inspect(hp.Body, func(n ast.Node) bool {
+		call, ok := n.(*ast.CallExpr)
+		if !ok {
+			return true
+		}
+		fn := CalleeOf(info, call)
+		if fn != nil && fn.Pkg() != nil && fn.Pkg().Path() == "strconv" && (fn.Name() == "ParseInt" || fn.Name() == "ParseUint") && len(call.Args) == 3 {
+			parse = true
+			if id, ok := ast.Unparen(call.Args[1]).(*ast.Ident); !ok || radixParam == nil || info.Uses[id] != radixParam {
+				wrongBase = exprStr(call.Args[1])
+			}
+		}
+		return true
+	})
+	if parse {
+		if wrongBase != "" {
+			o.Status, o.Detail = Violated, "strconv is called with base `"+wrongBase+"`, not the helper's radix parameter"
+		} else {
+			o.Status, o.Detail = Discharged, "strconv.Parse*(accumulated digits, radix, …); accumulation is covered by R-lex-scan (append/advance pairing)"
+		}
+		return []Obligation{o}
+	}
+	// shape 2: a digit-value function applied to the consumed rune
+	var valFn *types.Func
+	ast.Inspect(hp.Body, func(n ast.Node) bool {
+		call, ok := n.(*ast.CallExpr)
+		if !ok || len(call.Args) != 1 {
+			return true
+		}
+		fn := CalleeOf(info, call)
+		if fn == nil || fn.Pkg() != r.pkg.Types {
+			return true
+		}
+		sig := fn.Type().(*types.Signature)
+		if sig.Params().Len() == 1 && sig.Results().Len() == 1 {
+			if pb, ok := sig.Params().At(0).Type().(*types.Basic); ok && pb.Kind() == types.Int32 {
+				if rb, ok := sig.Results().At(0).Type().Underlying().(*types.Basic); ok && rb.Info()&types.IsInteger != 0 {
+					valFn = fn
+				}
+			}
+		}
+		return true
+	})
+	if valFn == nil {
+		o.Status, o.Detail = Info, "the decoder neither uses strconv nor a recognisable digit-value function: not decided"
+		return []Obligation{o}
+	}
+	vfd := FuncDecl(r.pkg, "", valFn.Name())
+	if vfd == nil {
+		o.Status, o.Detail = Info, "digit-value function body not found"
+		return []Obligation{o}
+	}
+	param := info.Defs[vfd.Type.Params.List[0].Names[0]]
+	// evaluate on each range of the hex class: expected affine d + k
+	type rng struct {
+		lo, hi rune
+		k      int
+		name   string
+	}
+	ranges := []rng{{'0', '9', -'0', "0-9"}, {'A', 'F', -'A' + 10, "A-F"}, {'a', 'f', -'a' + 10, "a-f"}}
+	var fails []string
+	undec := ""
+	for _, rg := range ranges {
+		// walk the function with the parameter constrained to the range
+		var got []int
+		var affine func(e ast.Expr) (a, b int, ok bool)
+		affine = func(e ast.Expr) (int, int, bool) {
+			e = ast.Unparen(e)
+			if tv := info.Types[e]; tv.Value != nil {
+				n, _ := constant.Int64Val(constant.ToInt(tv.Value))
+				return 0, int(n), true
+			}
+			switch x := e.(type) {
+			case *ast.Ident:
+				if info.Uses[x] == param {
+					return 1, 0, true
+				}
+			case *ast.CallExpr:
+				if info.Types[x.Fun].IsType() && len(x.Args) == 1 {
+					return affine(x.Args[0])
+				}
+			case *ast.BinaryExpr:
+				a1, b1, ok1 := affine(x.X)
+				a2, b2, ok2 := affine(x.Y)
+				if ok1 && ok2 {
+					switch x.Op {
+					case token.ADD:
+						return a1 + a2, b1 + b2, true
+					case token.SUB:
+						return a1 - a2, b1 - b2, true
+					}
+				}
+			}
+			return 0, 0, false
+		}
+		w := &Walker[*int]{
+			Clone: func(s *int) *int { v := *s; return &v },
+			OnCond: func(s *int, cond ast.Expr, taken bool) (*int, bool) {
+				cond = ast.Unparen(cond)
+				// predicate call on the parameter
+				if call, ok := cond.(*ast.CallExpr); ok && len(call.Args) == 1 {
+					if id, ok := ast.Unparen(call.Args[0]).(*ast.Ident); ok && info.Uses[id] == param {
+						if set, ok := r.preds[CalleeOf(info, call)]; ok {
+							all, none := true, true
+							for ch := rg.lo; ch <= rg.hi; ch++ {
+								if set.has(ch) {
+									none = false
+								} else {
+									all = false
+								}
+							}
+							if all {
+								return s, taken
+							}
+							if none {
+								return s, !taken
+							}
+							undec = "a condition splits the range " + rg.name
+							return s, true
+						}
+					}
+				}
+				if b, ok := cond.(*ast.BinaryExpr); ok {
+					if id, ok := ast.Unparen(b.X).(*ast.Ident); ok && info.Uses[id] == param {
+						if tv := info.Types[b.Y]; tv.Value != nil {
+							n, _ := constant.Int64Val(constant.ToInt(tv.Value))
+							holdsAll, holdsNone := true, true
+							for ch := rg.lo; ch <= rg.hi; ch++ {
+								var h bool
+								switch b.Op {
+								case token.GEQ:
+									h = int64(ch) >= n
+								case token.LEQ:
+									h = int64(ch) <= n
+								case token.GTR:
+									h = int64(ch) > n
+								case token.LSS:
+									h = int64(ch) < n
+								case token.EQL:
+									h = int64(ch) == n
+								case token.NEQ:
+									h = int64(ch) != n
+								default:
+									undec = "unsupported comparison"
+								}
+								if h {
+									holdsNone = false
+								} else {
+									holdsAll = false
+								}
+							}
+							if holdsAll {
+								return s, taken
+							}
+							if holdsNone {
+								return s, !taken
+							}
+							undec = "a condition splits the range " + rg.name
+							return s, true
+						}
+					}
+				}
+				undec = "condition `" + exprStr(cond) + "` not understood"
+				return s, true
+			},
+		}
+		w.Exit = func(s *int, oc outcome) {
+			if oc.ret == nil || len(oc.ret.Results) != 1 {
+				return
+			}
+			a, b, ok := affine(oc.ret.Results[0])
+			if !ok || a != 1 {
+				undec = "return value `" + exprStr(oc.ret.Results[0]) + "` is not of the form digit ± constant"
+				return
+			}
+			got = append(got, b)
+		}
+		zero := 0
+		w.Run(vfd.Body, &zero)
+		for _, b := range got {
+			if b != rg.k {
+				fails = append(fails, fmt.Sprintf("for the digits %s the function returns d%+d, the digit value is d%+d (e.g. %q ↦ %d instead of %d)", rg.name, b, rg.k, rg.lo, int(rg.lo)+b, int(rg.lo)+rg.k))
+			}
+		}
+	}
+	switch {
+	case len(fails) > 0:
+		o.Status, o.Detail = Violated, valFn.Name()+": "+strings.Join(fails, "; ")
+	case undec != "":
+		o.Status, o.Detail = Info, "digit-value function " + valFn.Name() + " not decided: " + undec
+	default:
+		o.Status, o.Detail = Discharged, "digit-value function " + valFn.Name() + " is correct on 0-9, A-F, a-f"
+	}
+	return []Obligation{o}
+}
